@@ -2,6 +2,7 @@
 package mount
 
 import (
+	"errors"
 	"io"
 	"path"
 	"strings"
@@ -223,6 +224,13 @@ func (fs *FS) rename(oldname, newname string) error {
 	closeErr := newFile.Close()
 	if err == nil {
 		err = closeErr // the copy is only complete once it's closed without error
+	}
+	if err == nil && newExisted {
+		// like a rename inside one file system, the destination takes over the source's mode. opening an existing file kept its own
+		err = hackpadfs.Chmod(newMount, newSubPath, oldInfo.Mode())
+		if errors.Is(err, hackpadfs.ErrNotImplemented) {
+			err = nil
+		}
 	}
 	if err == nil {
 		err = hackpadfs.Remove(oldMount, oldSubPath)
